@@ -45,7 +45,8 @@ class World:
         while len(names) < n:
             k = rng.randint(1, 5)
             nm = ''.join(rng.choice(World.NAME_CHARS) for _ in range(k)).strip()
-            if nm:
+            # a string that is exactly one of the marks - { [ ( is the subject of C16 (D50), not of these checks
+            if nm and nm not in ('-',):
                 names.add(nm)
         groups = ['g1', 'g 2', 'G3']
         locs = ['l1', 'L 2']
@@ -349,6 +350,9 @@ class Gen:
 
     def gen_stmt(self, allow, simple_only=False, last=False):
         rng = self.rng
+        self.depth = getattr(self, 'depth', 0)
+        if self.depth >= self.opts.get('max_depth', 4):
+            simple_only = True
         kinds = [('reg', 14), ('set', 14), ('power', 6), ('assign', 12), ('print', 10), ('wait', 2), ('time', 4),
                  ('units', 3), ('get', 3), ('printf', 3)]
         if not simple_only:
@@ -369,7 +373,11 @@ class Gen:
             if r < 0:
                 break
         self.stat('st_' + k)
-        return getattr(self, 'st_' + k)(last)
+        self.depth += 1
+        try:
+            return getattr(self, 'st_' + k)(last)
+        finally:
+            self.depth -= 1
 
     def st_reg(self, last):
         rng = self.rng
